@@ -46,6 +46,21 @@ def r2 : H := fun j => do
   pure (Json.mkObj [("fast", Json.arr (X.map (fun xi => fj (r2Fast x xi))).toArray),
                     ("direct", Json.arr (X.map (fun xi => fj (r2Direct x xi))).toArray)])
 
-def handlers : List (String × H) := [("C10.grad", grad), ("C10.inside", inside), ("C10.r2", r2)]
+/-- the fast path's mean and mean gradient from the cached terms:
+    {"x":[…],"X":[[…]…],"var","factor","bias","alpha":[…]} → {"mean":[m],"gradMean":[…]} -/
+def fastMeanH : H := fun j => do
+  let x ← floats j "x"
+  let X ← (← getArr j "X").toList.mapM (fun r => do
+    (← r.getArr?).toList.mapM (fun v => match v with | .num n => pure n.toFloat | _ => throw "bad"))
+  let v ← getF j "var"; let f ← getF j "factor"; let b ← getF j "bias"
+  let alpha ← floats j "alpha"
+  let ks := X.map (fun xi => rbfK Float.exp v f (r2Fast x xi))
+  let mean := fastMean (ks.map (· + b)) alpha
+  let gm := (List.range x.length).map (fun d =>
+    fastMean ((X.zip ks).map (fun q => rbfDk (x.getD d 0.0) (q.1.getD d 0.0) f q.2)) alpha)
+  pure (Json.mkObj [("mean", Json.arr #[fj mean]), ("gradMean", Json.arr (gm.map fj).toArray)])
+
+def handlers : List (String × H) :=
+  [("C10.grad", grad), ("C10.inside", inside), ("C10.r2", r2), ("C10.fastmean", fastMeanH)]
 
 end ElfiVerif.Drive.C10
